@@ -3,6 +3,7 @@ package main
 import (
 	"go/ast"
 	"go/token"
+	"sort"
 	"strings"
 )
 
@@ -80,6 +81,56 @@ func init() {
 			if !found {
 				anchorLost("%s: ReConnect: `connDone := make(chan bool, <literal>)` not found", rel)
 			}
+		}
+		// ReConnect tests the flag, dials and installs the new connection while holding connLock (two
+		// callers that both find the client closed must not both dial), and closes no socket itself
+		if fd := f.funcDecl("connection.ReConnect"); fd != nil {
+			type ev struct {
+				pos  token.Pos
+				kind int // +1 Lock, -1 explicit Unlock, 0 dial
+			}
+			var evs []ev
+			deferred := map[ast.Node]bool{}
+			closes := 0
+			ast.Inspect(fd.Body, func(n ast.Node) bool {
+				switch x := n.(type) {
+				case *ast.DeferStmt:
+					deferred[x.Call] = true
+				case *ast.CallExpr:
+					fn := exprStr(f.fset, x.Fun)
+					switch {
+					case strings.HasSuffix(fn, "connLock.Lock"):
+						evs = append(evs, ev{x.Pos(), +1})
+					case strings.HasSuffix(fn, "connLock.Unlock"):
+						if !deferred[x] {
+							evs = append(evs, ev{x.Pos(), -1})
+						}
+					case strings.Contains(fn, "Dial"):
+						evs = append(evs, ev{x.Pos(), 0})
+					case strings.HasSuffix(fn, ".Close"):
+						closes++
+					}
+				}
+				return true
+			})
+			sort.Slice(evs, func(i, j int) bool { return evs[i].pos < evs[j].pos })
+			held, dials, under := 0, 0, int64(1)
+			for _, e := range evs {
+				switch e.kind {
+				case 0:
+					dials++
+					if held <= 0 {
+						under = 0
+					}
+				default:
+					held += e.kind
+				}
+			}
+			if dials == 0 {
+				anchorLost("%s: ReConnect: no Dial call found", rel)
+			}
+			add("clientReConnectDialUnderLock", under, true)
+			add("clientReConnectSocketCloses", int64(closes), true)
 		}
 		if fd := f.funcDecl("connection.close"); fd != nil {
 			sets, guarded := 0, 0
